@@ -23,16 +23,23 @@ Proof.
   apply undos_eqv. apply pop1_undo.
 Qed.
 
+(** shape invariants the reverts rely on: no empty slot set in the access list (DeleteSlot
+    truncates the slice when a set becomes empty) and logSize within uint64 *)
+Definition NE (l : list (list N)) : Prop := Forall (fun sm => sm <> nil) l.
+Definition wfK (s : state) : Prop := NE (st_alslots s) /\ st_logsize s < two64.
+
+Ltac wk := try (unfold wfK; intros [? ?]; split; ss; auto; fail).
+
 (** [ext s0 s1]: s1 is s0 plus journalled changes; the revision bookkeeping is untouched *)
 Definition ext (s0 s1 : state) : Prop :=
-  st_revs s1 = st_revs s0 /\ st_nextrev s1 = st_nextrev s0 /\
+  st_revs s1 = st_revs s0 /\ st_nextrev s1 = st_nextrev s0 /\ (wfK s0 -> wfK s1) /\
   exists es, st_journal s1 = es ++ st_journal s0 /\ eqv (rewind (length es) s1) s0.
 
 Lemma ext_intro : forall s0 s1 es,
-  st_revs s1 = st_revs s0 -> st_nextrev s1 = st_nextrev s0 ->
+  st_revs s1 = st_revs s0 -> st_nextrev s1 = st_nextrev s0 -> (wfK s0 -> wfK s1) ->
   st_journal s1 = es ++ st_journal s0 -> eqv (undos es s1) s0 -> ext s0 s1.
 Proof.
-  intros s0 s1 es R N J E; repeat split; auto. exists es; split; auto.
+  intros s0 s1 es R N W J E; split; [|split; [|split]]; auto. exists es; split; auto.
   eapply eqv_trans; [apply (rewind_undos _ _ _ J)|exact E].
 Qed.
 
@@ -41,8 +48,8 @@ Proof. intro s; apply (ext_intro s s nil); auto. apply eqv_refl. Qed.
 
 Lemma ext_trans : forall s0 s1 s2, ext s0 s1 -> ext s1 s2 -> ext s0 s2.
 Proof.
-  intros s0 s1 s2 (R1 & N1 & es1 & J1 & E1) (R2 & N2 & es2 & J2 & E2).
-  repeat split; try congruence. exists (es2 ++ es1). split.
+  intros s0 s1 s2 (R1 & N1 & W1 & es1 & J1 & E1) (R2 & N2 & W2 & es2 & J2 & E2).
+  split; [|split; [|split]]; try congruence; auto. exists (es2 ++ es1). split.
   - rewrite J2, J1, app_assoc; reflexivity.
   - rewrite app_length, rewind_add.
     eapply eqv_trans; [|exact E1]. apply rewind_eqv; auto.
@@ -51,15 +58,16 @@ Proof.
 Qed.
 
 (** a step that only changes [eqv]-invisible things *)
-Lemma ext_silent : forall s s', ctl s' = ctl s -> eqv s' s -> ext s s'.
+Lemma ext_silent : forall s s', ctl s' = ctl s -> (wfK s -> wfK s') -> eqv s' s -> ext s s'.
 Proof.
-  intros s s' C E; unfold ctl in C; injection C as J R N.
+  intros s s' C W E; unfold ctl in C; injection C as J R N.
   apply (ext_intro s s' nil); auto.
 Qed.
 
 Lemma ext_only_objs : forall s s', only_objs s s' -> ext s s'.
 Proof.
-  intros s s' H. apply ext_silent; [apply only_objs_glob; auto | apply eqv_sym, only_objs_eqv; auto].
+  intros s s' H. apply ext_silent; [apply only_objs_glob; auto | | apply eqv_sym, only_objs_eqv; auto].
+  destruct (only_objs_glob _ _ H) as (G & _). unglob G. unfold wfK. congruence.
 Qed.
 
 (** ---------------------------------------------------------------- building blocks *)
@@ -98,7 +106,8 @@ Lemma ext_field : forall s a o e o' f b,
 Proof.
   intros s a o e o' f b Hh Hu Hd He.
   destruct (jappend_fields s e) as (J & G & O & R & N).
-  apply (ext_intro s _ [e]); [ss; auto | ss; auto | ss; rewrite J; reflexivity | ].
+  apply (ext_intro s _ [e]); [ss; auto | ss; auto | | ss; rewrite J; reflexivity | ].
+  - unglob G. unfold wfK; ss. congruence.
   - cbn [undos fold_left]. rewrite Hu.
     destruct (with_live_spec (put_obj (jappend s e) a o') a f b) as (G' & _ & P).
     eapply (eqv_frame s s); [apply eqv_refl | | reflexivity |].
@@ -110,60 +119,419 @@ Proof.
         apply opt_rel_refl, obj_eqv_refl.
 Qed.
 
+Ltac sj := unfold jappend; cbn [dirtied]; ss.
+
+Lemma reset_undo_eqv : forall s1 a p, st_objs s1 a = Some p ->
+  eqv (undo (JResetObject a p (st_destruct s1 a))
+        (put_obj (jappend (if st_destruct s1 a then s1 else set_destruct s1 (tupd (st_destruct s1) a true))
+                          (JResetObject a p (st_destruct s1 a))) a (new_object empty_account))) s1.
+Proof.
+  intros s1 a p Hl.
+  destruct (st_destruct s1 a) eqn:Da; unfold undo; sj; constructor; ss; auto.
+  - intro x; unfold peek; ss; unfold fupd. eqb x a; [rewrite Hl|]; apply opt_rel_refl, obj_eqv_refl.
+  - intro x; unfold tupd. eqb x a; auto.
+  - intro x; unfold peek; ss; unfold fupd. eqb x a; [rewrite Hl|]; apply opt_rel_refl, obj_eqv_refl.
+Qed.
+
+Lemma create_undo_eqv : forall s1 a, peek s1 a = None ->
+  eqv (undo (JCreateObject a) (put_obj (jappend s1 (JCreateObject a)) a (new_object empty_account))) s1.
+Proof.
+  intros s1 a Hp. unfold undo; sj; constructor; ss; auto.
+  intro x; unfold peek in *; ss; unfold fdel, fupd. eqb x a.
+  - destruct (st_objs s1 a); [discriminate|]. rewrite Hp. exact I.
+  - apply opt_rel_refl, obj_eqv_refl.
+Qed.
+
 Lemma create_object_spec : forall s a,
-  let '(s3, newobj, _) := create_object s a in
-  ext s s3 /\ has s3 a newobj /\ newobj = new_object empty_account.
+  ext s (fst (fst (create_object s a))) /\ has (fst (fst (create_object s a))) a (snd (fst (create_object s a))) /\
+  snd (fst (create_object s a)) = new_object empty_account.
 Proof.
   intros s a; unfold create_object.
   pose proof (get_deleted_res s a) as Hr. pose proof (get_deleted_state s a) as Hs.
   pose proof (get_deleted_loaded s a) as Hl.
   destruct (get_deleted s a) as [s1 prev]; ss. subst prev.
-  destruct (only_objs_glob _ _ Hs) as (G1 & C1 & _). pose proof Hs as [_ Hp].
+  pose proof Hs as [_ Hp].
   assert (E1 : ext s s1) by (apply ext_only_objs; auto).
+  split; [|split; [split; ss; [unfold fupd; rewrite eqb_refl'|]; reflexivity | reflexivity]].
+  eapply ext_trans; [exact E1|].
   destruct (peek s a) as [p|] eqn:Pk.
-  - (* reset *)
-    specialize (Hl p eq_refl).
-    set (s1' := if st_destruct s1 a then s1 else set_destruct s1 (tupd (st_destruct s1) a true)).
-    set (e := JResetObject a p (st_destruct s1 a)).
-    destruct (jappend_fields s1' e) as (J & G & O & R & N).
-    assert (F : st_journal s1' = st_journal s1 /\ st_revs s1' = st_revs s1 /\ st_nextrev s1' = st_nextrev s1 /\
-                st_objs s1' = st_objs s1 /\ st_trie s1' = st_trie s1)
-      by (unfold s1'; destruct (st_destruct s1 a); ss; auto).
-    destruct F as (F1 & F2 & F3 & F4 & F5).
-    split; [|split; [split; ss; [unfold fupd; rewrite eqb_refl'|]; reflexivity | reflexivity]].
-    eapply ext_trans; [exact E1|].
-    apply (ext_intro s1 _ [e]); [ss; congruence | ss; congruence | ss; rewrite J, F1; reflexivity | ].
-    + cbn [undos fold_left]. unfold e at 1. unfold undo.
-      assert (X : forall t, (forall x, st_destruct t x = st_destruct s1 x) -> st_trie t = st_trie s1 ->
-                  (forall x, peek t x = peek s1 x) ->
-                  st_refund t = st_refund s1 -> (forall x, st_logs t x = st_logs s1 x) -> st_logsize t = st_logsize s1 ->
-                  (forall x, st_preimages t x = st_preimages s1 x) -> (forall x, st_aladdrs t x = st_aladdrs s1 x) ->
-                  st_alslots t = st_alslots s1 -> (forall x y, st_transient t x y = st_transient s1 x y) -> eqv t s1).
-      { intros t D T P ? ? ? ? ? ? ?. constructor; auto. intro x; rewrite P, D. apply opt_rel_refl, obj_eqv_refl. }
-      unglob G.
-      destruct (st_destruct s1 a) eqn:Da; apply X; ss; try congruence.
-      all: try (intro x; unfold peek; ss; unfold fupd; rewrite O, F4, ?F5;
-                eqb x a; [rewrite Hl; reflexivity | try rewrite H0; try reflexivity]).
-      all: try (intros; congruence).
-      * unfold s1' in *. rewrite Da in *. congruence.
-      * unfold s1' in *. rewrite Da in *. ss. intro x. unfold tupd.
-        match goal with H : st_destruct _ = _ |- _ => rewrite H end. ss. unfold tupd.
-        eqb x a; [rewrite Da; reflexivity | reflexivity].
-      * unfold s1' in *. rewrite Da in *. ss. congruence.
-  - (* create *)
-    set (e := JCreateObject a).
-    destruct (jappend_fields s1 e) as (J & G & O & R & N).
-    split; [|split; [split; ss; [unfold fupd; rewrite eqb_refl'|]; reflexivity | reflexivity]].
-    eapply ext_trans; [exact E1|].
-    apply (ext_intro s1 _ [e]); [ss; congruence | ss; congruence | ss; rewrite J; reflexivity | ].
-    + cbn [undos fold_left]. unfold e at 1. unfold undo.
-      eapply (eqv_frame s1 s1); [apply eqv_refl | | reflexivity |].
-      * rewrite <- G. unfold glob; ss; reflexivity.
-      * intro x; unfold peek; ss. unglob G. unfold fdel, fupd. rewrite O.
-        eqb x a.
-        -- assert (P0 : peek s1 a = None) by (rewrite Hp; exact Pk).
-           unfold peek in P0. match goal with H : st_trie _ = st_trie s1 |- _ => rewrite H end.
-           destruct (st_objs s1 a); [discriminate|]. rewrite P0. exact I.
-        -- match goal with H : st_trie _ = st_trie s1 |- _ => rewrite H end.
-           apply opt_rel_refl, obj_eqv_refl.
+  - specialize (Hl p eq_refl).
+    apply (ext_intro s1 _ [JResetObject a p (st_destruct s1 a)]).
+    + destruct (st_destruct s1 a); sj; reflexivity.
+    + destruct (st_destruct s1 a); sj; reflexivity.
+    + destruct (st_destruct s1 a); unfold wfK; sj; auto.
+    + destruct (st_destruct s1 a); sj; reflexivity.
+    + cbn [undos fold_left]. apply reset_undo_eqv; auto.
+  - apply (ext_intro s1 _ [JCreateObject a]); [sj; reflexivity | sj; reflexivity | unfold wfK; sj; auto | sj; reflexivity |].
+    cbn [undos fold_left]. apply create_undo_eqv. rewrite Hp; auto.
+Qed.
+
+Lemma get_or_new_spec : forall s a,
+  ext s (fst (get_or_new s a)) /\ has (fst (get_or_new s a)) a (snd (get_or_new s a)).
+Proof.
+  intros s a; unfold get_or_new.
+  destruct (get_obj_spec s a) as (H1 & H2 & H3).
+  destruct (get_obj s a) as [s1 r]; ss. destruct r as [o|].
+  - ss. split; [apply ext_only_objs; auto | apply H3; reflexivity].
+  - destruct (create_object_spec s1 a) as (A & B & _).
+    destruct (create_object s1 a) as [[s2 o] pv]; ss. split; auto.
+    eapply ext_trans; [apply ext_only_objs; eauto | exact A].
+Qed.
+
+(** replacing a live object by an indistinguishable one is invisible *)
+Lemma ext_put_eqv : forall s a o o', has s a o -> obj_eqv (st_destruct s a) o' o -> ext s (put_obj s a o').
+Proof.
+  intros s a o o' Hh He. apply ext_silent; [reflexivity| unfold wfK; ss; auto |].
+  eapply (eqv_frame s s); [apply eqv_refl | reflexivity | reflexivity |].
+  intro x; rewrite peek_put. eqb x a.
+  - destruct (has_peek _ _ _ Hh) as (P & _). rewrite P. exact He.
+  - apply opt_rel_refl, obj_eqv_refl.
+Qed.
+
+Lemma ext_set_balance : forall s a o v, has s a o -> ext s (obj_set_balance s a o v).
+Proof.
+  intros s a o v Hh; unfold obj_set_balance.
+  eapply (ext_field s a o _ _ (fun o' => seto_data o' (setac_balance (o_data o') (ac_balance (o_data o)))) true); auto.
+  - apply Hh.
+  - constructor; ss; auto.
+Qed.
+
+Lemma ext_touch : forall s a, ext s (touch s a).
+Proof.
+  intros s a. apply (ext_intro s _ [JTouch a]).
+  - unfold touch. destruct (N.eqb a ripemd); sj; reflexivity.
+  - unfold touch. destruct (N.eqb a ripemd); sj; reflexivity.
+  - unfold touch, wfK. destruct (N.eqb a ripemd); sj; auto.
+  - unfold touch. destruct (N.eqb a ripemd); sj; reflexivity.
+  - cbn [undos fold_left undo]. unfold touch. destruct (N.eqb a ripemd); sj; constructor; ss; auto;
+      intro x; apply opt_rel_refl, obj_eqv_refl.
+Qed.
+
+Lemma add_balance_ext : forall s a v, ext s (add_balance s a v).
+Proof.
+  intros s a v; unfold add_balance. destruct (get_or_new_spec s a) as (E & Hh).
+  destruct (get_or_new s a) as [s1 o]; ss.
+  destruct (Z.eqb v 0).
+  - destruct (obj_empty o); [eapply ext_trans; [exact E | apply ext_touch] | exact E].
+  - eapply ext_trans; [exact E | apply ext_set_balance; auto].
+Qed.
+
+Lemma sub_balance_ext : forall s a v, ext s (sub_balance s a v).
+Proof.
+  intros s a v; unfold sub_balance. destruct (get_or_new_spec s a) as (E & Hh).
+  destruct (get_or_new s a) as [s1 o]; ss.
+  destruct (Z.eqb v 0); [exact E|]. eapply ext_trans; [exact E | apply ext_set_balance; auto].
+Qed.
+
+Lemma set_balance_ext : forall s a v, ext s (set_balance s a v).
+Proof.
+  intros s a v; unfold set_balance. destruct (get_or_new_spec s a) as (E & Hh).
+  destruct (get_or_new s a) as [s1 o]; ss. eapply ext_trans; [exact E | apply ext_set_balance; auto].
+Qed.
+
+Lemma set_nonce_ext : forall s a n, ext s (set_nonce s a n).
+Proof.
+  intros s a n; unfold set_nonce. destruct (get_or_new_spec s a) as (E & Hh).
+  destruct (get_or_new s a) as [s1 o]; ss. eapply ext_trans; [exact E|].
+  eapply (ext_field s1 a o _ _ (fun o' => seto_data o' (setac_nonce (o_data o') (ac_nonce (o_data o)))) true); auto.
+  - apply Hh.
+  - constructor; ss; auto.
+Qed.
+
+Lemma set_code_ext : forall s a c, ext s (set_code s a c).
+Proof.
+  intros s a c; unfold set_code. destruct (get_or_new_spec s a) as (E & Hh).
+  destruct (get_or_new s a) as [s1 o]; ss. eapply ext_trans; [exact E|].
+  eapply (ext_field s1 a o _ _ (fun o' => seto_dirtycode (seto_data o' (setac_code (o_data o') (ac_code (o_data o)))) true) true); auto.
+  - apply Hh.
+  - constructor; ss; auto.
+Qed.
+
+Lemma set_state_ext : forall s a k v, ext s (set_state s a k v).
+Proof.
+  intros s a k v; unfold set_state. destruct (get_or_new_spec s a) as (E & Hh).
+  destruct (get_or_new s a) as [s1 o]; ss.
+  pose proof (obj_get_state_val (st_destruct s1 a) o k) as Hv.
+  pose proof (obj_get_state_obj (st_destruct s1 a) o k) as Ho.
+  destruct (obj_get_state (st_destruct s1 a) o k) as [oc prev]; ss. subst prev.
+  (* the state after the cache fill *)
+  set (o1 := match oc with Some o' => o' | None => o end).
+  set (s2 := match oc with Some o' => put_obj s1 a o' | None => s1 end).
+  assert (Ho1 : obj_eqv (st_destruct s1 a) o o1).
+  { unfold o1; destruct oc; [apply Ho; reflexivity | apply obj_eqv_refl]. }
+  assert (E2 : ext s1 s2).
+  { unfold s2; destruct oc; [|apply ext_refl]. eapply ext_put_eqv; eauto. apply obj_eqv_sym. apply Ho; reflexivity. }
+  assert (H2 : has s2 a o1).
+  { unfold s2, o1; destruct oc; [|exact Hh]. split; ss; [unfold fupd; rewrite eqb_refl'; reflexivity|].
+    rewrite <- (oe_deleted _ _ _ (Ho o0 eq_refl)). apply Hh. }
+  assert (D2 : st_destruct s2 a = st_destruct s1 a) by (unfold s2; destruct oc; reflexivity).
+  destruct (N.eqb (state_val (st_destruct s1 a) o k) v).
+  - eapply ext_trans; eauto.
+  - eapply ext_trans; [exact E|]. eapply ext_trans; [exact E2|].
+    eapply (ext_field s2 a o1 _ _ (fun o' => seto_dirty o' (fupd (o_dirty o') k (state_val (st_destruct s1 a) o k))) true); auto.
+    + ss. apply H2.
+    + rewrite D2. constructor; ss; auto.
+      intro k'; unfold state_val at 1; ss. unfold fupd. eqb k' k.
+      * apply (oe_state _ _ _ Ho1).
+      * reflexivity.
+Qed.
+
+(** createObject over a live or deleted predecessor, whatever object ends up stored *)
+Lemma reset_undo_eqv' : forall s1 a p t,
+  st_objs s1 a = Some p ->
+  glob t = glob (if st_destruct s1 a then s1 else set_destruct s1 (tupd (st_destruct s1) a true)) ->
+  (forall x, x <> a -> st_objs t x = st_objs s1 x) ->
+  eqv (undo (JResetObject a p (st_destruct s1 a)) t) s1.
+Proof.
+  intros s1 a p t Hl G Hx. unfold undo.
+  destruct (st_destruct s1 a) eqn:Da; unglob G; constructor; ss; try congruence; try (intros; congruence).
+  - intro x; unfold peek; ss; unfold fupd. eqb x a; [rewrite Hl | rewrite Hx by auto; replace (st_trie t) with (st_trie s1) by congruence];
+      apply opt_rel_refl, obj_eqv_refl.
+  - intro x; unfold tupd. match goal with H : st_destruct t = _ |- _ => rewrite H end. unfold tupd.
+    eqb x a; auto.
+  - intro x; unfold peek; ss; unfold fupd. eqb x a; [rewrite Hl | rewrite Hx by auto; replace (st_trie t) with (st_trie s1) by congruence];
+      apply opt_rel_refl, obj_eqv_refl.
+Qed.
+
+Lemma create_account_ext : forall s a, ext s (create_account s a).
+Proof.
+  intros s a; unfold create_account.
+  pose proof (create_object_spec s a) as (A & B & C).
+  unfold create_object in *.
+  pose proof (get_deleted_res s a) as Hr. pose proof (get_deleted_state s a) as Hs.
+  pose proof (get_deleted_loaded s a) as Hl.
+  destruct (get_deleted s a) as [s1 prev]; ss. subst prev.
+  destruct (peek s a) as [p|] eqn:Pk; [|exact A].
+  destruct (o_deleted p); [exact A|].
+  specialize (Hl p eq_refl).
+  eapply ext_trans; [apply ext_only_objs; eauto|].
+  apply (ext_intro s1 _ [JResetObject a p (st_destruct s1 a)]).
+  - destruct (st_destruct s1 a); sj; reflexivity.
+  - destruct (st_destruct s1 a); sj; reflexivity.
+  - destruct (st_destruct s1 a); unfold wfK; sj; auto.
+  - destruct (st_destruct s1 a); sj; reflexivity.
+  - cbn [undos fold_left]. apply reset_undo_eqv'; auto.
+    intros x Hx. apply N.eqb_neq in Hx. destruct (st_destruct s1 a); sj; unfold fupd; rewrite !Hx; reflexivity.
+Qed.
+
+Lemma suicide_ext : forall s a, ext s (fst (suicide s a)).
+Proof.
+  intros s a; unfold suicide. destruct (get_obj_spec s a) as (H1 & H2 & H3).
+  destruct (get_obj s a) as [s1 r]; ss. destruct r as [o|]; ss; [|apply ext_only_objs; auto].
+  eapply ext_trans; [apply ext_only_objs; eauto|]. specialize (H3 o eq_refl).
+  eapply (ext_field s1 a o _ _ (fun o' => seto_data (seto_suicided o' (o_suicided o)) (setac_balance (o_data o') (ac_balance (o_data o)))) false); auto.
+  - apply H3.
+  - constructor; ss; auto.
+Qed.
+
+(** ---------------------------------------------------------------- global counters and lists *)
+
+
+Lemma refl_objs : forall s x, opt_rel (obj_eqv (st_destruct s x)) (peek s x) (peek s x).
+Proof. intros; apply opt_rel_refl, obj_eqv_refl. Qed.
+
+Ltac pk := (intro; unfold peek; ss; apply opt_rel_refl, obj_eqv_refl).
+
+Lemma add_refund_ext : forall s g, ext s (add_refund s g).
+Proof.
+  intros s g; unfold add_refund. apply (ext_intro s _ [JRefund (st_refund s)]); try (sj; reflexivity); try (unfold wfK; sj; tauto).
+  cbn [undos fold_left undo]; sj. constructor; ss; auto; try pk.
+Qed.
+
+Lemma sub_refund_ext : forall s g, ext s (fst (sub_refund s g)).
+Proof.
+  intros s g; unfold sub_refund.
+  destruct (N.ltb (st_refund (jappend s (JRefund (st_refund s)))) g); ss;
+  (apply (ext_intro s _ [JRefund (st_refund s)]); try (sj; reflexivity); try (unfold wfK; sj; tauto);
+   cbn [undos fold_left undo]; sj; constructor; ss; auto; try pk).
+Qed.
+
+Lemma two64_pos : two64 <> 0. Proof. discriminate. Qed.
+
+Lemma log_roundtrip : forall x, x < two64 -> ((x + 1) mod two64 + (two64 - 1)) mod two64 = x.
+Proof.
+  intros x H. unfold two64 in *.
+  destruct (N.eq_dec (x + 1) 18446744073709551616) as [E|E].
+  - rewrite E, N.mod_same by discriminate. cbn [N.add]. rewrite N.mod_small by lia. lia.
+  - rewrite (N.mod_small (x + 1)) by lia.
+    replace (x + 1 + (18446744073709551616 - 1)) with (x + 1 * 18446744073709551616) by lia.
+    rewrite N.mod_add by discriminate. apply N.mod_small; lia.
+Qed.
+
+Lemma undo_addlog_snoc : forall t th l x, st_logs t th = l ++ [x] ->
+  undo (JAddLog th) t = set_logsize (set_logs t (tupd (st_logs t) th l)) ((st_logsize t + (two64 - 1)) mod two64).
+Proof.
+  intros t th l x H; unfold undo. rewrite H. rewrite removelast_last.
+  destruct (l ++ [x]) eqn:E; [destruct l; discriminate|]. reflexivity.
+Qed.
+
+Lemma add_log_ext : forall s p, st_logsize s < two64 -> ext s (add_log s p).
+Proof.
+  intros s p Hw; unfold add_log. apply (ext_intro s _ [JAddLog (st_thash s)]); try (sj; reflexivity).
+  { unfold wfK; sj. intros [? ?]; split; auto. apply N.mod_lt. discriminate. }
+  cbn [undos fold_left]. sj.
+  erewrite undo_addlog_snoc; [|ss; unfold tupd; rewrite eqb_refl'; reflexivity].
+  ss. constructor; ss; auto; try pk.
+  - intro t; unfold tupd. eqb t (st_thash s); reflexivity.
+  - apply log_roundtrip; auto.
+Qed.
+
+Lemma add_preimage_ext : forall s h p, ext s (add_preimage s h p).
+Proof.
+  intros s h p; unfold add_preimage. destruct (st_preimages s h) eqn:Ep; [apply ext_refl|].
+  apply (ext_intro s _ [JAddPreimage h]); try (sj; reflexivity); try (unfold wfK; sj; tauto).
+  cbn [undos fold_left undo]; sj. constructor; ss; auto; try pk.
+  intro x; unfold fdel, fupd. eqb x h; auto.
+Qed.
+
+Lemma set_transient_ext : forall s a k v, ext s (set_transient_state s a k v).
+Proof.
+  intros s a k v; unfold set_transient_state. destruct (N.eqb (st_transient s a k) v); [apply ext_refl|].
+  apply (ext_intro s _ [JTransient a k (st_transient s a k)]); try (sj; reflexivity); try (unfold wfK; sj; tauto).
+  cbn [undos fold_left undo]; sj. constructor; ss; auto; try pk.
+  intros x y. rewrite eqb_refl'. eqb x a; [|reflexivity]. unfold tupd. eqb y k; reflexivity.
+Qed.
+
+Lemma add_address_al_ext : forall s a, ext s (add_address_al s a).
+Proof.
+  intros s a; unfold add_address_al. destruct (st_aladdrs s a) eqn:Ea; [apply ext_refl|].
+  apply (ext_intro s _ [JALAddr a]); try (sj; reflexivity); try (unfold wfK; sj; tauto).
+  cbn [undos fold_left undo]; sj. constructor; ss; auto; try pk.
+  intro x; unfold fdel, fupd. eqb x a; auto.
+Qed.
+
+Lemma nth_error_list_set : forall (V : Type) (l : list V) i v x, nth_error l i = Some x -> nth_error (list_set l i v) i = Some v.
+Proof. induction l; destruct i; cbn; intros; try discriminate; eauto. Qed.
+
+Lemma list_set_list_set : forall (V : Type) (l : list V) i v x, nth_error l i = Some x -> list_set (list_set l i v) i x = l.
+Proof.
+  induction l; destruct i; cbn; intros; try discriminate; auto.
+  - inversion H; reflexivity.
+  - f_equal; eauto.
+Qed.
+
+Lemma remove_n_notin : forall k l, mem k l = false -> remove_n k l = l.
+Proof.
+  induction l; cbn; intro H; [reflexivity|]. apply orb_false_iff in H. destruct H as [H1 H2].
+  rewrite N.eqb_sym, H1. cbn. f_equal; auto.
+Qed.
+
+Lemma remove_n_snoc : forall k l, mem k l = false -> remove_n k (l ++ [k]) = l.
+Proof.
+  intros k l H. unfold remove_n. rewrite filter_app. cbn. rewrite eqb_refl'. cbn. rewrite app_nil_r.
+  apply remove_n_notin; auto.
+Qed.
+
+Lemma delete_slot_al_spec : forall t a k idx sm,
+  st_aladdrs t a = Some (Some idx) -> nth_error (st_alslots t) idx = Some sm ->
+  delete_slot_al t a k =
+  match remove_n k sm with
+  | nil => set_aladdrs (set_alslots t (firstn idx (st_alslots t))) (fupd (st_aladdrs t) a None)
+  | _ :: _ => set_alslots t (list_set (st_alslots t) idx (remove_n k sm))
+  end.
+Proof. intros t a k idx sm H1 H2; unfold delete_slot_al. rewrite H1, H2. reflexivity. Qed.
+
+Lemma remove_n_single : forall k, remove_n k [k] = nil.
+Proof. intro k; cbn. rewrite eqb_refl'. reflexivity. Qed.
+
+Lemma NE_snoc : forall l k, NE l -> NE (l ++ [[k]]).
+Proof. intros l k H; unfold NE in *. apply Forall_app; split; auto. constructor; [discriminate|constructor]. Qed.
+
+Lemma NE_list_set : forall l i v, NE l -> v <> nil -> NE (list_set l i v).
+Proof.
+  unfold NE; induction l; destruct i; cbn; intros v H Hv; auto; inversion H; subst; constructor; auto.
+Qed.
+
+Lemma NE_firstn : forall l n, NE l -> NE (firstn n l).
+Proof.
+  unfold NE; intros l n H. rewrite Forall_forall in *. intros x Hx. apply H. eapply In_firstn_In; eauto. (* stdlib name check *)
+Qed.
+
+Lemma add_slot_al_ext : forall s a k, NE (st_alslots s) -> ext s (add_slot_al s a k).
+Proof.
+  intros s a k Hne; unfold add_slot_al.
+  assert (Fn : nth_error (st_alslots s ++ [[k]]) (length (st_alslots s)) = Some [k]).
+  { rewrite nth_error_app2 by lia. rewrite Nat.sub_diag. reflexivity. }
+  assert (Ff : firstn (length (st_alslots s)) (st_alslots s ++ [[k]]) = st_alslots s).
+  { rewrite firstn_app, Nat.sub_diag, firstn_all. cbn. apply app_nil_r. }
+  destruct (st_aladdrs s a) as [[idx|]|] eqn:Ea.
+  - destruct (nth_error (st_alslots s) idx) as [sm|] eqn:En.
+    + destruct (mem k sm) eqn:Em; [apply ext_refl|].
+      apply (ext_intro s _ [JALSlot a k]); try (sj; reflexivity).
+      { unfold wfK; sj. intros [? ?]; split; auto. apply NE_list_set; auto. destruct sm; discriminate. }
+      cbn [undos fold_left undo].
+      erewrite delete_slot_al_spec; [| sj; exact Ea | sj; eapply nth_error_list_set; eauto].
+      rewrite remove_n_snoc by auto.
+      assert (sm <> nil).
+      { unfold NE in Hne. rewrite Forall_forall in Hne. apply Hne. eapply nth_error_In; eauto. }
+      destruct sm as [|x sm']; [congruence|]. sj.
+      constructor; ss; auto; try pk. eapply list_set_list_set; eauto.
+    + apply ext_silent; [reflexivity| unfold wfK; ss; auto |]. constructor; ss; auto; try pk.
+  - apply (ext_intro s _ [JALSlot a k]); try (sj; reflexivity).
+    { unfold wfK; sj. intros [? ?]; split; auto. apply NE_snoc; auto. }
+    cbn [undos fold_left undo].
+    erewrite delete_slot_al_spec; [| sj; unfold fupd; rewrite eqb_refl'; reflexivity | sj; exact Fn].
+    rewrite remove_n_single. sj. rewrite Ff.
+    constructor; ss; auto; try pk.
+    intro x; unfold fupd. eqb x a; auto.
+  - apply (ext_intro s _ [JALSlot a k; JALAddr a]); try (sj; reflexivity).
+    { unfold wfK; sj. intros [? ?]; split; auto. apply NE_snoc; auto. }
+    cbn [undos fold_left undo].
+    erewrite delete_slot_al_spec; [| sj; unfold fupd; rewrite eqb_refl'; reflexivity | sj; exact Fn].
+    rewrite remove_n_single. sj. rewrite Ff.
+    constructor; ss; auto; try pk.
+    intro x; unfold fdel, fupd. eqb x a; auto.
+Qed.
+
+(** ---------------------------------------------------------------- getters *)
+
+Lemma read_ext : forall s q, ext s (fst (read s q)).
+Proof.
+  intros s q.
+  assert (A : forall a (f : option obj -> answer), ext s (fst (let (s1, r) := get_obj s a in (s1, f r)))).
+  { intros a f. destruct (get_obj_spec s a) as (H1 & _). destruct (get_obj s a); ss. apply ext_only_objs; auto. }
+  assert (B : forall c a k, ext s (fst (read_slot c s a k))).
+  { intros c a k; unfold read_slot. destruct (get_obj_spec s a) as (H1 & H2 & H3).
+    destruct (get_obj s a) as [s1 r]; ss. destruct r as [o|]; ss; [|apply ext_only_objs; auto].
+    specialize (H3 o eq_refl).
+    pose proof (obj_get_state_obj (st_destruct s1 a) o k) as Ho1.
+    pose proof (obj_get_committed_obj (st_destruct s1 a) o k) as Ho2.
+    eapply ext_trans; [apply ext_only_objs; eauto|].
+    destruct c.
+    - destruct (obj_get_committed (st_destruct s1 a) o k) as [[o'|] v]; ss; [|apply ext_refl].
+      eapply ext_put_eqv; eauto. apply obj_eqv_sym; auto.
+    - destruct (obj_get_state (st_destruct s1 a) o k) as [[o'|] v]; ss; [|apply ext_refl].
+      eapply ext_put_eqv; eauto. apply obj_eqv_sym; auto. }
+  destruct q; unfold read; auto; apply ext_refl.
+Qed.
+
+(** ---------------------------------------------------------------- the one-step theorem *)
+
+(** operations that neither touch the revision stack nor clear the journal *)
+Definition plain (o : op) : bool :=
+  match o with
+  | OSnapshot | ORevert _ | OFinalise _ | OIntermediateRoot _ | OCommit _ => false
+  | _ => true
+  end.
+
+Lemma step_ext : forall s o, wfK s -> plain o = true -> ext s (fst (step s o)).
+Proof.
+  intros s o [Hne Hls] Hp; destruct o; try discriminate; unfold step; ss.
+  - apply create_account_ext.
+  - apply add_balance_ext.
+  - apply sub_balance_ext.
+  - apply set_balance_ext.
+  - apply set_nonce_ext.
+  - apply set_code_ext.
+  - apply set_state_ext.
+  - pose proof (suicide_ext s a). destruct (suicide s a); ss; auto.
+  - apply add_refund_ext.
+  - pose proof (sub_refund_ext s g). destruct (sub_refund s g); ss; auto.
+  - apply add_log_ext; auto.
+  - apply add_preimage_ext.
+  - apply add_address_al_ext.
+  - apply add_slot_al_ext; auto.
+  - apply set_transient_ext.
+  - apply ext_silent; [reflexivity| unfold wfK; ss; auto |]. constructor; ss; auto; try pk.
+  - apply read_ext.
 Qed.
